@@ -25,6 +25,7 @@ func init() {
 
 func runGV1(c *load.Ctx, r *report.RuleResult) {
 	perPkg := map[string]int{}
+	eff := newFSEffects(c)
 	for _, fn := range c.ModuleFunctions() {
 		rel := load.FuncPkgRel(fn)
 		if load.IsAux(rel) {
@@ -46,6 +47,26 @@ func runGV1(c *load.Ctx, r *report.RuleResult) {
 					base, _ := addrRoot(x.Map)
 					if g, ok := base.(*ssa.Global); ok && load.InModule(g.Pkg.Pkg) {
 						bad = append(bad, fmt.Sprintf("updates package-level map %s.%s at %s", g.Pkg.Pkg.Name(), g.Name(), c.Pos(x.Pos())))
+					}
+				case ssa.CallInstruction:
+					// a method that changes its receiver, called on an object a package variable holds
+					// (a scanner kept and "rewound" for every call, a shared builder): pools and
+					// once-wrappers are synchronised and exempt
+					cc := x.Common()
+					sc := cc.StaticCallee()
+					if sc == nil || sc.Signature.Recv() == nil || len(cc.Args) == 0 || !load.FuncInModule(sc) {
+						continue
+					}
+					base, _ := addrRoot(cc.Args[0])
+					g, ok := base.(*ssa.Global)
+					if !ok || !load.InModule(g.Pkg.Pkg) {
+						continue
+					}
+					if rel := load.FuncPkgRel(sc); rel == "internal/sync" {
+						continue
+					}
+					if eff.writes(sc, 0) {
+						bad = append(bad, fmt.Sprintf("calls %s on the object held by package variable %s.%s at %s, and %s", sc.Name(), g.Pkg.Pkg.Name(), g.Name(), c.Pos(x.Pos()), eff.why[fsKey{sc, 0}]))
 					}
 				}
 			}
